@@ -153,6 +153,11 @@ def _binary(rng, n):
 def _gen_name(rng, used):
     if used and rng.random() < 0.12:
         return rng.choice(used)
+    if used and rng.random() < 0.10:
+        # tape names keep their case: a name that differs from an earlier one only in capitalisation is another file
+        v = rng.choice(used).swapcase()
+        if v not in used:
+            return v
     if rng.random() < 0.03:
         return ''
     n = rng.choice([1, 2, 3, 4, 5, 6, 7, 8, 8, 8])
